@@ -139,6 +139,9 @@ structure Pool where
 structure Buf where
   cap : Nat
   level : Nat := 0
+  /-- ghost: total amount put / got so far (the implementation has no such fields) -/
+  putTotal : Nat := 0
+  getTotal : Nat := 0
   front : Nat
   rear : Nat
   recording : Bool := false
@@ -147,6 +150,9 @@ structure Buf where
 structure OQ where
   cap : Nat
   items : List Nat := []      -- head first
+  /-- ghost: every object put / delivered so far, oldest first -/
+  putLog : List Nat := []
+  gotLog : List Nat := []
   front : Nat
   rear : Nat
   recording : Bool := false
@@ -155,6 +161,10 @@ structure OQ where
 structure PQ where
   cap : Nat
   queue : HH
+  /-- ghost: handles put, delivered, cancelled so far -/
+  putLog : List Nat := []
+  gotLog : List Nat := []
+  cancelLog : List Nat := []
   front : Nat
   rear : Nat
   recording : Bool := false
